@@ -138,6 +138,7 @@ class Plan:
         self.positions = []  # (path, type, "field"|"item", is_resolver) every completed position
         self.faults_fired = {}
         self.abstract_levels = {}
+        self.default_type_resolutions = 0  # abstract positions resolved by the default type resolver
         self.probes = {}
         self.refused = False  # request refused before execution (operation / variables)
         self.over = {}
@@ -608,6 +609,8 @@ class RefExec:
         level = self.abstract_level(abstract, fd)
         key = {"field": "_tn_field", "type": "_tn_type", "default": "_typename"}[level]
         tn = peek(raw, key)
+        if level == "default":
+            self.plan.default_type_resolutions += 1
         if tn is None and level == "default":
             tn = type(raw).__name__
         if tn not in self.s.types or self.s.kind_of(tn) != "OBJECT" or tn not in self.s.possible(abstract):
